@@ -199,7 +199,12 @@ def _shards(tier):
     for sh in out:
         if sh["dbundle"] and (sh["obundle"] or len(sh["ops"]) > 1):
             full = tier == "thorough"
-            combos = [(a, b, c, e) for a in (False, True) for b in (False, True) for c in range(3) for e in range(3)] if full else cover
+            if full:
+                combos = [(a, b, c, e) for a in (False, True) for b in (False, True) for c in range(3) for e in range(3)]
+            elif len(sh["ops"]) > 1:
+                combos = [x for x in cover if not (x[0] and x[1])]  # both-defaults only for single operations in quick
+            else:
+                combos = cover
             for a, b, c, e in combos:
                 x = dict(sh, dhasdef=a, ohasdef=b, dbmode=c)
                 if sh["obundle"]:
